@@ -262,10 +262,12 @@ def _run_chunk(args):
     re-run ALONE to confirm (output buffering may hide how far it got); a confirmed line is marked
     `CRASH ...` / `HANG ...` and the rest of the chunk continues in a fresh process."""
     exe, mode, lines = args
-    out, start = [], 0
+    out, start, nhang = [], 0, 0
     while start < len(lines):
         rest = lines[start:]
-        got, status, err, rc = _run_once(exe, mode, rest, 15 if exe == RUNNER else 120)
+        # after the first hang in this chunk the patience drops: ordinary cases answer within milliseconds
+        got, status, err, rc = _run_once(exe, mode, rest, (15 if nhang == 0 else 3) if exe == RUNNER else 120)
+        nhang += status == "hang"
         if status == "ok":
             out += got
             break
